@@ -104,7 +104,7 @@ def edit_flat(r, s):
 
 # ---------------------------------------------------------------- generator
 def gen_case(r):
-    g = J.Gen(r, max_depth=4, n_accounts=r.randint(2, 6))
+    g = J.Gen(r, max_depth=r.choice([3, 4, 5]), n_accounts=r.randint(2, 6))
     ts = g.journal(r.randint(1, 3), prices=(r.random() < 0.5), meta=False, implicit_p=0.4)
     kinds = []
     for k, t in enumerate(ts):
@@ -139,8 +139,11 @@ def gen_case(r):
         c["price"] = ents
     cfg_comms = [x for x in [c["rc"], c["ovc"]] if x] + [x for be in (c["price"] or []) for x in be]
     c["equity"] = r.random() < 0.25
+    # a quarter of the cases declares everything exactly (strict mode must accept those
+    # whenever the journal is acceptable at all); the rest varies each chart independently
+    exact_all = r.random() < 0.25
     # ---- chart of accounts
-    k = r.random()
+    k = 0.0 if exact_all else r.random()
     decl = list(accs)
     if k < 0.34:
         kinds.append("acc:exact")
@@ -181,7 +184,7 @@ def gen_case(r):
     c["accounts"] = decl
     c["eqa"] = "Equity:Balance"
     if c["equity"]:
-        k = r.random()
+        k = 0.0 if exact_all else r.random()
         if k < 0.5:
             c["accounts"].append(c["eqa"]); kinds.append("equity:declared")
         elif k < 0.75:
@@ -189,7 +192,7 @@ def gen_case(r):
         else:
             kinds.append("equity:undeclared")
     # ---- chart of commodities
-    k = r.random()
+    k = 0.0 if exact_all else r.random()
     dc = sorted(set(comms + cfg_comms))
     if k < 0.55:
         kinds.append("comm:exact")
@@ -205,7 +208,7 @@ def gen_case(r):
     c["comms"] = dc
     c["permit"] = r.choice([True, True, True, False, None]) if has_empty else r.choice([True, False, None])
     # ---- chart of tags
-    k = r.random()
+    k = 0.0 if exact_all else r.random()
     dt = list(tags)
     if k < 0.6:
         kinds.append("tag:exact")
